@@ -600,7 +600,14 @@ class SSeq(SV):
         return SNum(z3.Length(self.term), True)
 
     def __len__(self):
-        raise Unsupported('len() of a symbolic list outside a rewritten function')
+        # native len() (e.g. the length hint of `[x, *seq]`): case split on 0..3 like __iter__, the rest undecided
+        n = z3.simplify(z3.Length(self.term))
+        if z3.is_int_value(n):
+            return n.as_long()
+        for k in range(4):
+            if E().branch(z3.Length(self.term) == k):
+                return k
+        raise Unsupported('len() of a symbolic list of length > 3 outside a rewritten function')
 
     def append(self, v):
         self.term = z3.Concat(self.term, self._unit(v))
@@ -660,7 +667,14 @@ class SSeq(SV):
         n = z3.simplify(z3.Length(self.term))
         if z3.is_int_value(n):
             return iter([self._wrap(z3.simplify(self.term[i])) for i in range(n.as_long())])
-        raise Unsupported('native iteration over a list of symbolic length (needs a loop contract)')
+        # A list of symbolic length iterated natively (no loop contract): case split on the lengths 0..3 and leave the
+        # rest undecided.  Contracts of the unchanged code never rely on this (a path ending in Unsupported makes the
+        # harness undecided); it lets CHANGED code that starts iterating such a list (`[x, *delays]`, `for d in delays`)
+        # be refuted on the short lists instead of being undecided altogether.
+        for k in range(4):
+            if E().branch(z3.Length(self.term) == k):
+                return iter([self._wrap(self.term[i]) for i in range(k)])
+        raise Unsupported('native iteration over a list of symbolic length > 3 (needs a loop contract)')
 
     def __hash__(self):
         raise Unsupported('hash of list')
